@@ -30,28 +30,30 @@ type Sample struct {
 }
 
 type Report struct {
-	Harness      string
-	Paths        int            // completed executions
-	ByStatus     map[string]int // ok | panic | infeasible | bound | unsupported | deadlock | assume
-	Decisions    int64
-	Steps        int64
-	Infeasible   int
-	Discharged   int
-	Trivial      int
-	UnknownQ     int
-	Violations   []Violation
-	Known        []Violation
-	KnownCount   map[string]int
-	Reach        map[string]int
-	Witnesses    []*Witness
-	Samples      []Sample
-	Faults       []string // unsupported / bound / deadlock messages (deduplicated)
-	Queries      struct{ Sat, Unsat, Unknown, Errors, Total int }
-	SolverTime   time.Duration
-	Wall         time.Duration
-	Functions    map[string]int // function -> calls (union over workers)
-	Complete     bool           // work list exhausted within limits
-	MaxDepth     int
+	Harness       string
+	Paths         int            // completed executions
+	ByStatus      map[string]int // ok | panic | infeasible | bound | unsupported | deadlock | assume
+	Decisions     int64
+	Steps         int64
+	Infeasible    int
+	DomainDecided int
+	DomainAudited int
+	Discharged    int
+	Trivial       int
+	UnknownQ      int
+	Violations    []Violation
+	Known         []Violation
+	KnownCount    map[string]int
+	Reach         map[string]int
+	Witnesses     []*Witness
+	Samples       []Sample
+	Faults        []string // unsupported / bound / deadlock messages (deduplicated)
+	Queries       struct{ Sat, Unsat, Unknown, Errors, Total int }
+	SolverTime    time.Duration
+	Wall          time.Duration
+	Functions     map[string]int // function -> calls (union over workers)
+	Complete      bool           // work list exhausted within limits
+	MaxDepth      int
 }
 
 // Explore runs harness fn to exhaustion (within opt limits).
@@ -109,6 +111,8 @@ func Explore(prog *ssa.Program, fn *ssa.Function, cfg *Config, opt Options) (*Re
 				}
 				rep.Steps += res.Steps
 				rep.Infeasible += res.Infeasible
+				rep.DomainDecided += res.DomainDecided
+				rep.DomainAudited += res.DomainAudited
 				rep.Discharged += res.Discharged
 				rep.Trivial += res.Trivial
 				rep.UnknownQ += res.UnknownQ
